@@ -16,6 +16,22 @@ use crate::rng::{hash64, hash_str};
 use crate::solo::*;
 use crate::world::*;
 
+/// a formatter sink that accepts `left` more bytes and then fails
+struct Cut {
+	left: usize,
+}
+impl std::fmt::Write for Cut {
+	fn write_str(&mut self, s: &str) -> std::fmt::Result {
+		if s.len() > self.left {
+			self.left = 0;
+			Err(std::fmt::Error)
+		} else {
+			self.left -= s.len();
+			Ok(())
+		}
+	}
+}
+
 /// non-acquiring operations that need ownership / &mut: constructors, get_mut, child_mut,
 /// into_inner, into_child, from, from_iter, default, extend — performed on freshly built
 /// structures whose locks may be "held" (phantoms, or a guard leaked with mem::forget).
@@ -289,6 +305,7 @@ pub fn run(cfg: &RunCfg) -> Report {
 		for policy in [Policy::ReaderPref, Policy::WriterPref] {
 			let (res, out) = solo(arena_spec, policy, cfg.only.is_some(), |tc| {
 				let w = tc.w.clone();
+				PAYLOAD_DEBUG.with(|m| m.set(0));
 				let ids = expected_ids(tc.arena, target);
 				let rw: Vec<bool> = ids.iter().map(|id| is_rw(&w, *id)).collect();
 				let mut n_ops = 0u64;
@@ -336,6 +353,20 @@ pub fn run(cfg: &RunCfg) -> Report {
 							if !poisoned {
 								// (clear_poison is one of the accessors: in the poisoned pass they run last)
 								let _ = tc.nonacq("accessors(target)", || lk.accessors());
+								// Formatting that ends early: a sink that fails after `cut` bytes, a payload
+								// whose own Debug returns Err, a payload whose Debug panics.  The call ends
+								// with an Err or an unwind and must still leave every lock as it found it.
+								for cut in [0usize, 1, 9, 17, 26, 36, 47, 59, 72, 90, 130, 200] {
+									let _ = tc.nonacq("debug(target) into a sink that fails part way", || lk.debug_to(&mut Cut { left: cut }));
+								}
+								for mode in [1u8, 2] {
+									PAYLOAD_DEBUG.with(|m| m.set(mode));
+									let _ = tc.nonacq(
+										if mode == 1 { "debug(target), payload Debug returns Err" } else { "debug(target), payload Debug panics" },
+										|| guarded(|| lk.debug_to(&mut String::new())).is_ok(),
+									);
+									PAYLOAD_DEBUG.with(|m| m.set(0));
+								}
 							}
 						});
 						// the same while the calling thread's key is NOT alive (a formatter that
@@ -350,7 +381,7 @@ pub fn run(cfg: &RunCfg) -> Report {
 							Some(k) => tc.key = Some(k),
 							None => tc.v("C17", "key_taken_by_nonacquiring_call", format!("after formatting {} the thread's key is gone", target_desc(target))),
 						}
-						n_ops += 4;
+						n_ops += if poisoned { 4 } else { 18 };
 						cases.push((format!("other:{}{}", asg_str(&asg), if poisoned { ":poisoned" } else { "" }), poisoned || asg.iter().any(|h| *h != Hold::Free)));
 					}
 				}
@@ -457,6 +488,6 @@ pub fn run(cfg: &RunCfg) -> Report {
 			}
 		}
 	});
-	rep.rule = format!("(a) every shape of sizes 0..{max_n} (as in C13) x every assignment of {{free, read-held, write-held by a phantom}} x both wake policies: Debug of the target + all &self accessors (child, iter, into_iter(&), as_ref, is_poisoned, clear_poison); (b) the same operations plus Debug of the guard while the calling thread itself holds the shape through a live guard and from inside a running scoped closure, read and write; (c) {owned_variants} variants of ownership-requiring operations (new/new_ref/from/from_iter/default/extend, get_mut, child_mut, iter_mut, into_child, into_inner of Mutex, RwLock, Poisonable and owned/boxed/ref/retrying collections of sizes 0..4) on locks that are free, phantom-held, or held through a guard leaked with mem::forget; every Debug / accessor case over shapes with Poisonable leaves is repeated with all those wrappers POISONED (re-poisoned before each group, since clear_poison is one of the operations); monitor: no blocking raw op inside the call and owner table equal before/after; non-trivial = some lock held during the call");
+	rep.rule = format!("(a) every shape of sizes 0..{max_n} (as in C13) x every assignment of {{free, read-held, write-held by a phantom}} x both wake policies: Debug of the target + all &self accessors (child, iter, into_iter(&), as_ref, is_poisoned, clear_poison); (b) the same operations plus Debug of the guard while the calling thread itself holds the shape through a live guard and from inside a running scoped closure, read and write; (c) {owned_variants} variants of ownership-requiring operations (new/new_ref/from/from_iter/default/extend, get_mut, child_mut, iter_mut, into_child, into_inner of Mutex, RwLock, Poisonable and owned/boxed/ref/retrying collections of sizes 0..4) on locks that are free, phantom-held, or held through a guard leaked with mem::forget; every phantom-assignment case also formats the target into a sink that fails after 0..200 bytes and with a payload whose own Debug returns Err / panics (the formatting call ends early and must still restore every lock); every Debug / accessor case over shapes with Poisonable leaves is repeated with all those wrappers POISONED (re-poisoned before each group, since clear_poison is one of the operations); monitor: no blocking raw op inside the call and owner table equal before/after; non-trivial = some lock held during the call");
 	rep
 }
